@@ -72,8 +72,79 @@ def runTrig (cmd : String) : P String := do
       pure s!"ok {f x} ; {f y} ; {f z}"
   | t => throw s!"unknown disp command {t}"
 
+/-! `place`: place_and_orient_model3d on dyadic data; every number travels as an integer multiple of 1/64 -/
+def q64 : P Float := do pure (Float.ofInt (← int) / 64)
+def fmtQ (x : Float) : String := toString (x * 64).round.toInt64
+
+def tval : P (TVal Float) := do
+  match (← tok) with
+  | "a" => do
+      let nd ← nat
+      let sh ← many nd nat
+      let n ← nat
+      pure (.arr sh (← many n q64))
+  | "o" => do pure (.other (← int))
+  | t => throw s!"bad trace value tag {t}"
+
+def fmtTVal : TVal Float → String
+  | .arr sh d => s!"a {sh.length} {nats sh} {d.length} {" ".intercalate (d.map fmtQ)}"
+  | .other t => s!"o {t}"
+
+def kv : P (String × TVal Float) := do let k ← tok; let v ← tval; pure (k, v)
+
+def opt {α} (p : P α) : P (Option α) := do
+  if (← nat) = 0 then pure none else pure (some (← p))
+
+def v3q : P (MagpyVerif.V3 Float) := do pure ⟨← q64, ← q64, ← q64⟩
+
+def ckeys : P (CKey × CKey × CKey) := do
+  match (← tok) with
+  | "k" => do pure (.key (← tok), .key (← tok), .key (← tok))
+  | "a" => do pure (.arg (← nat), .arg (← nat), .arg (← nat))
+  | t => throw s!"bad coordsargs tag {t}"
+
+def fmtCKey : CKey → String
+  | .key k => k
+  | .arg i => s!"args[{i}]"
+
+/-- `place K <n> (key val)* A <0 | 1 n val*> R <0 | 1 rot> X <0 | 1 vec> C <0 | 1 ckeys> S <scale> F <factor>
+    E <n> (key val)* RET <model_args?> <coordsargs?>` -/
+def runPlace : P String := do
+  let _ ← tok
+  let kw ← many (← nat) kv
+  let _ ← tok
+  let args ← opt (do many (← nat) tval)
+  let _ ← tok
+  let ori ← opt (do pure (⟨← v3q, ← v3q, ← v3q⟩ : MagpyVerif.M3 Float))
+  let _ ← tok
+  let pos ← opt v3q
+  let _ ← tok
+  let ca ← opt ckeys
+  let _ ← tok
+  let scale ← q64
+  let _ ← tok
+  let f ← q64
+  let _ ← tok
+  let extra ← many (← nat) kv
+  let _ ← tok
+  let retArgs := (← nat) != 0
+  let retCoords := (← nat) != 0
+  match placeModel { kwargs := kw, args := args, orientation := ori, position := pos, coordsargs := ca,
+                     scale := scale, lengthFactor := f, extra := extra } with
+  | .error e => pure ("err " ++ errName e)
+  | .ok o =>
+    let d := " ".intercalate (o.kwargs.map fun (k, v) => s!"{k} {fmtTVal v}")
+    let a := if retArgs then
+        (match o.args with | none => "none" | some l => s!"{l.length} {" ".intercalate (l.map fmtTVal)}")
+      else "-"
+    let c := if retCoords then
+        (match o.coordsargs with | none => "none" | some (x, y, z) => s!"{fmtCKey x} {fmtCKey y} {fmtCKey z}")
+      else "-"
+    pure s!"ok {o.kwargs.length} {d} | {a} | {c}"
+
 def run : P String := do
   match (← tok) with
+  | "place" => runPlace
   | "inds" => do
       let n ← nat
       let sp ← showPath
